@@ -25,9 +25,10 @@ Burst    == \E cmd \in BurstCmds   : Apply(cmd)
 Nest     == \E cmd \in NestCmds    : Apply(cmd)
 Advance  == \E cmd \in AdvanceCmds : Apply(cmd)
 HandleOp == \E cmd \in HandleCmds  : Apply(cmd)
+Erase    == \E cmd \in EraseCmds   : Apply(cmd)
 Quiesce  == Apply(QuiesceCmd)
 
-Next == Spawn \/ Start \/ PollC \/ Burst \/ Nest \/ Advance \/ HandleOp \/ Quiesce
+Next == Spawn \/ Start \/ PollC \/ Burst \/ Nest \/ Advance \/ HandleOp \/ Erase \/ Quiesce
 
 Spec == Init /\ [][Next]_vars
 
